@@ -420,9 +420,12 @@ class Input(object):
             inp_type = 'segwit'
         sequence_number = raw.read(4)
 
-        return Input(prev_txid=prev_hash, output_n=output_n, unlocking_script=unlocking_script,
-                     witness_type=inp_type, sequence=sequence_number, index_n=index_n, strict=strict, network=network,
-                     script_type=script_type)
+        inp = Input(prev_txid=prev_hash, output_n=output_n, unlocking_script=unlocking_script,
+                    witness_type=inp_type, sequence=sequence_number, index_n=index_n, strict=strict, network=network,
+                    script_type=script_type)
+        # A parsed input keeps the script it was parsed from, scripts are only rebuilt when the input is signed
+        inp.unlocking_script = unlocking_script
+        return inp
 
     def update_scripts(self, hash_type=SIGHASH_ALL):
         """
@@ -1065,7 +1068,12 @@ class Transaction(object):
                 elif 'unknown' in script.script_types and not coinbase:
                     inputs[n].script_type = 'unknown'
 
+                parsed_witnesses = list(inputs[n].witnesses)
+                parsed_unlocking_script = inputs[n].unlocking_script
                 inputs[n].update_scripts(hash_type=inputs[n].hash_type)
+                # A parsed input keeps the scripts it was parsed from, they are only rebuilt when the input is signed
+                inputs[n].witnesses = parsed_witnesses
+                inputs[n].unlocking_script = parsed_unlocking_script
 
         locktime_bytes = rawtx.read(4)[::-1]
         if len(locktime_bytes) != 4 and strict:
